@@ -27,8 +27,8 @@ use std::collections::{BTreeMap, HashMap, HashSet};
 
 pub struct Partlog;
 
-const STREAM: u32 = 1;
-const TOPIC: u32 = 1;
+const STREAM: u32 = 3; // stream, topic and partition ids deliberately differ from each other (1 / 1 / 1 hides swapped arguments)
+const TOPIC: u32 = 2;
 
 #[derive(Debug, Clone, Default)]
 pub struct SegObs {
